@@ -3,6 +3,7 @@ package core
 import (
 	"bytes"
 	"context"
+	"fmt"
 	"hash/crc32"
 	"io"
 	"io/ioutil"
@@ -62,6 +63,14 @@ func (label *Label) UploadDescriptor(ctx context.Context, bundle *Bundle) (err e
 		return err
 	}
 	label.Descriptor.BundleID = bundle.BundleID
+
+	// a label must be resolvable from its metadata path, or it breaks listings for the whole repo
+	archivePath := model.GetArchivePathToLabel(bundle.RepoID, label.Descriptor.Name)
+	apc, err := model.GetArchivePathComponents(archivePath)
+	if err != nil || apc.LabelName != label.Descriptor.Name || apc.Repo != bundle.RepoID {
+		return fmt.Errorf("invalid label name %q: cannot be resolved from its metadata path %q", label.Descriptor.Name, archivePath)
+	}
+
 	buffer, err := yaml.Marshal(label.Descriptor)
 	if err != nil {
 		return err
@@ -69,14 +78,10 @@ func (label *Label) UploadDescriptor(ctx context.Context, bundle *Bundle) (err e
 	lsCRC, ok := bundle.contextStores.VMetadata().(storage.StoreCRC)
 	if ok {
 		crc := crc32.Checksum(buffer, crc32.MakeTable(crc32.Castagnoli))
-		err = lsCRC.PutCRC(ctx,
-			model.GetArchivePathToLabel(bundle.RepoID, label.Descriptor.Name),
-			bytes.NewReader(buffer), storage.OverWrite, crc)
+		err = lsCRC.PutCRC(ctx, archivePath, bytes.NewReader(buffer), storage.OverWrite, crc)
 
 	} else {
-		err = bundle.contextStores.VMetadata().Put(ctx,
-			model.GetArchivePathToLabel(bundle.RepoID, label.Descriptor.Name),
-			bytes.NewReader(buffer), storage.OverWrite)
+		err = bundle.contextStores.VMetadata().Put(ctx, archivePath, bytes.NewReader(buffer), storage.OverWrite)
 	}
 	if err != nil {
 		return err
